@@ -6,12 +6,14 @@ Property theorems only (helper lemmas: `Proofs/BrokerFanout*.lean`).  Model:
 `Model/Topics.lean` and its finished theorems (`Properties/C06.lean`);
 specification: `Spec/Match.lean` (section 4.7).
 -/
-import Mqtt.Proofs.BrokerFanoutOut
+import Mqtt.Proofs.BrokerFanoutHeld
 
 set_option linter.unusedSimpArgs false
 
 namespace Mqtt.Properties.C01
 open Mqtt.Iface.Broker Mqtt.Model.Broker Mqtt.Proofs.Broker
+open Mqtt.Proofs.Topics (good abs WF)
+open Mqtt.Spec.Match (split validName matchLevels topicMatches)
 
 /-- example state: clients "a" (connection 1) and "b" (connection 2), an
 in-process subscriber 1000 on "a/#" (QoS 1); connection 1 holds "a/+" (QoS 0)
@@ -70,6 +72,121 @@ example :
        .call 1000 { qos := 1, retain := true, topic := [97, 47, 98], pktid := 5, payload := [1, 2] }] ∧
     (fanout exState m subs).2.1 =
       ⟨{ qos := 1, retain := true, topic := [97, 47, 98], pktid := 5, payload := [1, 2] }, true⟩ := by
+  decide
+
+/-! ### (e) a publish reaches exactly the matching subscriptions -/
+
+/-- what subscriber `s`, holding a matching subscription granted at QoS `g`,
+is handed for the accepted PUBLISH `p`: same topic, same payload, QoS
+`min(p.qos, g)`; a connection gets RETAIN = 0 and the publisher's identifier
+(none at QoS 0), an in-process callback the message as received -/
+def delivery (p : Pub) (s g : Nat) : Out :=
+  if s < cbBase then
+    .send s (.publish { dup := p.dup, qos := min p.qos g, retain := false, topic := p.topic,
+                        pktid := if min p.qos g = 0 then 0 else p.pktid, payload := p.payload })
+  else .call s { p with qos := min p.qos g }
+
+/-- the subscriber an output is addressed to -/
+def target : Out → Option Nat
+  | .send c _ => some c
+  | .call cb _ => some cb
+  | _ => none
+
+/-- For every state satisfying the invariant whose subscribed connections are
+alive, and every decoded PUBLISH `p` (QoS <= 2, identifier present unless QoS 0)
+on a valid topic name without empty and '$'-led levels (findings B3/B4 are
+outside): `onPublish` succeeds and its outputs are - up to the order in which
+Go iterates its maps - exactly one `delivery` per entry (path, subscriber,
+granted QoS) of the subscription trie whose path matches the name under MQTT
+3.1.1 section 4.7 (`Spec.Match.matchLevels`): at least once and at most once
+per matching subscription, nothing to anybody else. -/
+theorem C01_publish_reaches_matching_partial (b : B) (p : Pub) (hinv : Inv b)
+    (hg : good p.topic = true) (hn : validName p.topic = true) (hq : p.qos ≤ 2)
+    (hid : p.pktid ≠ 0 ∨ p.qos = 0)
+    (hal : ∀ e ∈ abs b.topics.sroot, e.2.1 < cbBase → b.alive e.2.1 = true) :
+    (onPublish b ⟨p, false⟩).2.2.2 = true ∧
+    (onPublish b ⟨p, false⟩).2.2.1.Perm
+      (((abs b.topics.sroot).filter (fun e => matchLevels e.1 (split p.topic))).map
+        (fun e => delivery p e.2.1 e.2.2)) := by
+  obtain ⟨h1, _, h3⟩ := onPublish_char b p hinv hg hn hq hid hal
+  exact ⟨h1, h3⟩
+
+/-- In terms of the subscriptions held (`HeldInv`: the trie holds exactly the
+entries of the specification's `held` list, as `C07_held_refines_partial`
+maintains over SUBSCRIBE/UNSUBSCRIBE steps): the outputs are one `delivery` per
+held subscription whose filter matches the topic name. -/
+theorem C01_publish_held_partial (b : B) (p : Pub) (held : List Mqtt.Spec.Broker.Held) (hinv : Inv b)
+    (hh : HeldInv b.topics.sroot held)
+    (hg : good p.topic = true) (hn : validName p.topic = true) (hq : p.qos ≤ 2)
+    (hid : p.pktid ≠ 0 ∨ p.qos = 0)
+    (hal : ∀ h ∈ held, h.owner < cbBase → b.alive h.owner = true) :
+    (onPublish b ⟨p, false⟩).2.2.1.Perm
+      ((held.filter (fun h => topicMatches h.filter p.topic)).map (fun h => delivery p h.owner h.qos)) := by
+  have hal' : ∀ e ∈ abs b.topics.sroot, e.2.1 < cbBase → b.alive e.2.1 = true := by
+    intro e he hlt
+    have := hh.perm.mem_iff.mp he
+    obtain ⟨h, hm, rfl⟩ := List.mem_map.mp this
+    exact hal h hm hlt
+  refine (C01_publish_reaches_matching_partial b p hinv hg hn hq hid hal').2.trans ?_
+  refine ((hh.perm.filter _).map _).trans ?_
+  rw [List.filter_map, List.map_map]
+  exact List.Perm.refl _
+
+/-- No other client receives it: every output of the step is addressed to the
+owner of a held subscription whose filter matches the topic name. -/
+theorem C01_nobody_else_partial (b : B) (p : Pub) (held : List Mqtt.Spec.Broker.Held) (hinv : Inv b)
+    (hh : HeldInv b.topics.sroot held)
+    (hg : good p.topic = true) (hn : validName p.topic = true) (hq : p.qos ≤ 2)
+    (hid : p.pktid ≠ 0 ∨ p.qos = 0)
+    (hal : ∀ h ∈ held, h.owner < cbBase → b.alive h.owner = true) :
+    ∀ o ∈ (onPublish b ⟨p, false⟩).2.2.1,
+      ∃ h ∈ held, topicMatches h.filter p.topic = true ∧ target o = some h.owner := by
+  intro o ho
+  have := (C01_publish_held_partial b p held hinv hh hg hn hq hid hal).mem_iff.mp ho
+  obtain ⟨h, hm, rfl⟩ := List.mem_map.mp this
+  obtain ⟨hm1, hm2⟩ := List.mem_filter.mp hm
+  refine ⟨h, hm1, hm2, ?_⟩
+  unfold delivery
+  split <;> rfl
+
+/-- the full statement: all valid topic names -/
+def C01_publish_held_full : Prop :=
+  ∀ (b : B) (p : Pub) (held : List Mqtt.Spec.Broker.Held), Inv b → HeldInv b.topics.sroot held →
+    validName p.topic = true → p.qos ≤ 2 → (p.pktid ≠ 0 ∨ p.qos = 0) →
+    (∀ h ∈ held, h.owner < cbBase → b.alive h.owner = true) →
+    (onPublish b ⟨p, false⟩).2.2.1.Perm
+      ((held.filter (fun h => topicMatches h.filter p.topic)).map (fun h => delivery p h.owner h.qos))
+
+/-- False of the code as it is (finding B3): a PUBLISH on "a/" (two levels,
+the second empty) is delivered to the subscription "a". -/
+theorem C01_publish_held_full_counterexample : ¬ C01_publish_held_full := by
+  intro h
+  let b : B := (run {} [exConnect 1 [97], .packet 1 (.subscribe 1 [([97], 1)])]).1
+  have ha : abs b.topics.sroot = [([[97]], 1, 1)] := by decide
+  have hh : HeldInv b.topics.sroot [⟨1, [97], 1⟩] :=
+    ⟨by rw [ha]; exact List.Perm.refl _, by decide⟩
+  have := h b { qos := 0, topic := [97, 47], payload := [1] } [⟨1, [97], 1⟩] (Inv_run _ _ Inv_init) hh
+    (by decide) (by decide) (by decide) (by decide)
+  exact absurd this.length_eq (by decide)
+
+/-- non-vacuity on `exState`: a QoS 2 PUBLISH "a/b" reaches callback 1000 via
+"a/#" at QoS 1, connection 1 twice (via "a/+" at QoS 0 and via "a/b" at QoS 2),
+connection 2 via "#" at QoS 1; a PUBLISH on "c" reaches connection 2 only. -/
+example :
+    Inv exState ∧ (∀ e ∈ abs exState.topics.sroot, e.2.1 < cbBase → exState.alive e.2.1 = true) ∧
+    abs exState.topics.sroot =
+      [([[97], [35]], 1000, 1), ([[97], [43]], 1, 0), ([[97], [98]], 1, 2), ([[35]], 2, 1)] ∧
+    (onPublish exState ⟨{ qos := 2, topic := [97, 47, 98], pktid := 5, payload := [1, 2] }, false⟩).2.2.1 =
+      [.call 1000 { qos := 1, topic := [97, 47, 98], pktid := 5, payload := [1, 2] },
+       .send 1 (.publish { qos := 0, topic := [97, 47, 98], pktid := 0, payload := [1, 2] }),
+       .send 1 (.publish { qos := 2, topic := [97, 47, 98], pktid := 5, payload := [1, 2] }),
+       .send 2 (.publish { qos := 1, topic := [97, 47, 98], pktid := 5, payload := [1, 2] })] ∧
+    (onPublish exState ⟨{ qos := 0, topic := [99], payload := [] }, false⟩).2.2.1 =
+      [.send 2 (.publish { qos := 0, topic := [99], payload := [] })] := by
+  refine ⟨Inv_run _ _ Inv_init, ?_, by decide, by decide, by decide⟩
+  have ha : abs exState.topics.sroot =
+      [([[97], [35]], 1000, 1), ([[97], [43]], 1, 0), ([[97], [98]], 1, 2), ([[35]], 2, 1)] := by decide
+  rw [ha]
   decide
 
 end Mqtt.Properties.C01
